@@ -387,7 +387,7 @@ def attach_shares_id(s0, op):
     return kinds
 
 
-def run_history(prop, spec, ops, acc, gen=None, tail=True):
+def run_history(prop, spec, ops, acc, gen=None, tail=True, judge_from=0, layer=''):
     """ops: list of descriptors, or None with gen=(rnd, length) to generate on the fly.
     Returns the list of executed descriptors (for replay)."""
     u = Universe(spec)
@@ -423,6 +423,15 @@ def run_history(prop, spec, ops, acc, gen=None, tail=True):
         if op[0] == 'stale.use' and op[1] not in u.stale:
             continue
         executed.append(op)
+        if step < judge_from:
+            # base-state prefix of the exhaustive layer: already judged when the base state was collected
+            try:
+                execute(u, op)
+            except Exception:
+                pass
+            if step == judge_from - 1:
+                s_after = snap(u)
+            continue
         name = opname(op)
         ac = argclass(s0, op)
         exp = None
@@ -451,7 +460,7 @@ def run_history(prop, spec, ops, acc, gen=None, tail=True):
         s1 = snap(u)
         s_after = s1
         history.append([name, ac, outcome])
-        acc.count('calls')
+        acc.count(layer + 'calls')
         acc.count('op:' + name + ':' + ('ok' if outcome == 'ok' else 'raise'))
         acc.count('accepted' if outcome == 'ok' else 'rejected')
         if outcome != 'ok':
@@ -726,8 +735,137 @@ def _lookup_checks(u, s1, acc, sh, name, structure_ok=True):
 # ------------------------------------------------------------------------------------------
 # shard / replay entry points
 # ------------------------------------------------------------------------------------------
+# ------------------------------------------------------------------------------------------
+# small-scope exhaustive layer (thorough tier): every single call from every collected base state
+# ------------------------------------------------------------------------------------------
+EXH_SPEC = {'tasks': [{'id': 1, 'name': 'n1'}, {'id': 2, 'name': 'n0'}, {'id': 3, 'name': 'n1'}, {'id': 1, 'name': 'n0'}], 'wbs': 2}
+
+
+def all_single_calls(s):
+    """every mutator x every argument tuple drawn from the 4-task / 2-WBS universe (indexes -1..len+1, None, pairs)"""
+    T = list(s['T'])
+    W = list(s['R'])
+    H = [['t', t] for t in T] + [['w', w] for w in W]
+    seqs = [[]] + [[a] for a in T] + [[a, b] for a in T for b in T]
+    ops = []
+    for t in T:
+        for p in T + [None]:
+            ops.append(['parent=', t, p])
+    for h in H:
+        for L in seqs:
+            ops.append(['children=', h, L, 'list'])
+        ops.append(['children=', h, [T[0], None], 'list'])
+        ops.append(['children=', h, [T[1]], 'single'])
+        ops.append(['children=', h, [T[2], T[3]], 'gen_raises'])
+        for x in T:
+            ops.append(['append', h, x])
+            ops.append(['lremove', h, x])
+            ops.append(['floordiv', h, [x], True])
+            n = len(s['T'][h[1]]['children'] if h[0] == 't' else s['R'][h[1]])
+            for i in range(-1, n + 2):
+                ops.append(['insert', h, i, x])
+            for a in T:
+                ops.append(['move', h, [x], a, None, True])
+                ops.append(['move', h, [x], None, a, True])
+                ops.append(['move', h, [x], a, a, True])
+                ops.append(['floordiv', h, [x, a], False])
+            ops.append(['move', h, [x], None, None, True])
+            ops.append(['bulk_parent', h, x])
+            ops.append(['list_lshift', h, [x]])
+            ops.append(['list_rshift', h, [x]])
+        for a in T:
+            for b in T:
+                ops.append(['move', h, [a, b], T[0], None, False])
+        for key in ('name', 'id', ['name', 'id'], 'nosuch'):
+            for rev in (False, True):
+                ops.append(['sort', h, key, rev])
+        ids = [1, 2, 3, 99]
+        for L in [[]] + [[a] for a in ids] + [[a, b] for a in ids for b in ids]:
+            ops.append(['reorder', h, L])
+        for flt in ({'kind': 'all'}, {'kind': 'id', 'id': 1}, {'kind': 'ids', 'ids': [1, 2], 'as': 'kw'}, {'kind': 'ids', 'ids': [3], 'as': 'callable'},
+                    {'kind': 'name', 'name': 'n0'}, {'kind': 'raising', 'after': 1}, {'kind': 'int', 'value': 1}):
+            ops.append(['remove_all', h, flt])
+    for w in W:
+        for x in T:
+            ops.append(['wbs.remove', w, x])
+        for flt in ({'kind': 'all'}, {'kind': 'id', 'id': 1}, {'kind': 'name', 'name': 'n1'}, {'kind': 'raising', 'after': 1}):
+            ops.append(['wbs.remove_all', w, flt])
+    for t in T:
+        for L in seqs:
+            ops.append(['preds=', t, L, 'list'])
+            ops.append(['succs=', t, L, 'list'])
+        ops.append(['preds=', t, [T[0], None], 'list'])
+        ops.append(['succs=', t, [T[1], T[2]], 'gen_raises'])
+        for x in T:
+            for k in ('preds.append', 'succs.append', 'preds.remove', 'succs.remove'):
+                ops.append([k, t, x])
+            ops.append(['lshift', t, [x], True])
+            ops.append(['rshift', t, [x], True])
+            for y in T:
+                ops.append(['lshift', t, [x, y], False])
+                ops.append(['rshift', t, [x, y], False])
+    return ops
+
+
+def collect_base_states(seed, want):
+    """distinct reachable states of the small universe (labelled snapshots), each with the call sequence that produced it"""
+    states = {}
+    idx = 0
+    while len(states) < want and idx < want * 40:
+        rnd = core.case_rng(seed, 0, idx, 'exh-base')
+        idx += 1
+        u = Universe(EXH_SPEC)
+        ops = []
+        s = snap(u)
+        for _ in range(rnd.randint(0, 7)):
+            op = gen_op(rnd, s, u)
+            if op[0] in ('new', 'stale.get', 'stale.use'):
+                continue
+            ops.append(op)
+            try:
+                execute(u, op)
+            except Exception:
+                pass
+            s = snap(u)
+            if _polluted(s) or invariants(s):
+                break
+            key = core.jdump(graph.setlevel(s))
+            if key not in states:
+                states[key] = list(ops)
+    return [states[k] for k in sorted(states)]
+
+
+def run_exhaustive(prop, seed, shard, nshards, acc, max_seconds, want=320):
+    import time
+    t_end = time.time() + max_seconds
+    bases = collect_base_states(seed, want)
+    mine = bases[shard::nshards]
+    done = 0
+    for base in mine:
+        if time.time() > t_end:
+            acc.notes.append(f'exhaustive layer stopped by its time cap after {done} of {len(mine)} base states in shard {shard}')
+            break
+        u = Universe(EXH_SPEC)
+        for op in base:
+            try:
+                execute(u, op)
+            except Exception:
+                pass
+        s = snap(u)
+        for op in all_single_calls(s):
+            run_history(prop, EXH_SPEC, base + [op], acc, tail=False, judge_from=len(base), layer='exhaustive_')
+        done += 1
+        acc.count('exhaustive_base_states')
+    return done, len(mine)
+
+
 def run_shard(prop, tier, seed, shard, nshards, budget, acc):
     idx = 0
+    import time
+    if tier == 'thorough':
+        run_exhaustive(prop, seed, shard, nshards, acc, max(30.0, (budget.deadline - time.time()) * 0.4), want=640)
+    else:
+        run_exhaustive(prop, seed, shard, nshards, acc, max(5.0, (budget.deadline - time.time()) * 0.3), want=48)
     while budget.more():
         rnd = core.case_rng(seed, shard, idx, 'hist')
         idx += 1
